@@ -32,7 +32,7 @@ main (void)
 {	SF_PRIVATE *psf = &g_psf ;
 	HSNAP before ;
 	sf_count_t nd_bytes = nondet_i64 (), ret, p, F, i ;
-	unsigned char file0 [MF_CAP] ;
+	unsigned char file0 [MF_CAP], nd_file [MF_CAP], nd_src [BUF_CELLS] ;
 	int k ;
 
 	handle_arbitrary (psf, CH, BW) ;
@@ -44,8 +44,10 @@ main (void)
 	VASSUME (nd_bytes >= -REQ_MAX && nd_bytes <= REQ_MAX) ;
 
 	/* file: header + frames * blockwidth bytes of symbolic audio, maybe trailing bytes */
+	ND_FILL (nd_file, MF_CAP, uchar) ;
+	ND_FILL (nd_src, BUF_CELLS, uchar) ;
 	for (k = 0 ; k < MF_CAP ; k++)
-	{	unsigned char nd_fb = nondet_uchar () ;
+	{	unsigned char nd_fb = nd_file [k] ;
 		VASSUME (nd_fb != SENT && nd_fb != 0) ;
 		mf [0].data [k] = nd_fb ;
 		file0 [k] = nd_fb ;
@@ -63,7 +65,7 @@ main (void)
 	/* file position invariant: after an op the descriptor sits at that pointer */
 	mf [0].pos = DOFF + BLK * (psf->last_op == SFM_READ ? psf->read_current : psf->write_current) ;
 	for (k = 0 ; k < BUF_CELLS ; k++)
-		g_buf [k] = DIR_READ ? SENT : nondet_uchar () ;
+		g_buf [k] = DIR_READ ? SENT : nd_src [k] ;
 
 	hsnap_take (psf, &before) ;
 	p = DIR_READ ? psf->read_current : psf->write_current ;
